@@ -175,6 +175,11 @@ func (x *Exec) invoke(st *State, site ssa.Instruction, c *ssa.CallCommon, fnv Va
 	case "fmt.Errorf":
 		x.completeCall(st, site, kind, x.modelErrorf(st, c, args))
 		return
+	case "errors.As":
+		if r, ok := x.modelErrorsAs(st, c, args); ok {
+			x.completeCall(st, site, kind, r)
+			return
+		}
 	}
 	spec := x.P.funcSpec(fn)
 	if spec != nil && !spec.Transparent {
@@ -552,10 +557,107 @@ func (x *Exec) modelErrorf(st *State, c *ssa.CallCommon, args []Val) Val {
 			alts = append(alts, "(errIs "+w+" t)")
 		}
 		st.assume(fmt.Sprintf("(forall ((t Int)) (! (= (errIs %s t) %s) :pattern ((errIs %s t))))", r, or(alts...), r))
+		x.useErrAs()
+		switch len(wrapped) {
+		case 0:
+			st.assume(fmt.Sprintf("(forall ((t Int)) (! (not (errAsT %s t)) :pattern ((errAsT %s t))))", r, r))
+		case 1:
+			w := wrapped[0]
+			st.assume(fmt.Sprintf("(forall ((t Int)) (! (and (= (errAsT %s t) (errAsT %s t)) (= (errAsV %s t) (errAsV %s t))) :pattern ((errAsT %s t)) :pattern ((errAsV %s t))))", r, w, r, w, r, r))
+		}
 	} else {
 		x.warn("fmt.Errorf with non-constant format in %s", fnShort(st.fr.fn))
 	}
 	return TV{r, errT}
+}
+
+// errors.As(err, &target) with a statically known target type T: the answer is the uninterpreted
+// errAsT(err, T); when true, *target receives the value asValOf(err, T) whose leaves are uninterpreted
+// functions of errAsV(err, T).  fmt.Errorf("%w") wrappers answer like the error they wrap (modelErrorf).
+func (x *Exec) modelErrorsAs(st *State, c *ssa.CallCommon, args []Val) (Val, bool) {
+	mi, ok := c.Args[1].(*ssa.MakeInterface)
+	if !ok {
+		return nil, false
+	}
+	pt, ok := under(mi.X.Type()).(*types.Pointer)
+	if !ok {
+		return nil, false
+	}
+	T := pt.Elem()
+	x.useIface()
+	errv := args[0].(TV).T
+	ptr := "(ival " + args[1].(TV).T + ")"
+	r := x.errAsT(errv, T)
+	nv := x.asValOf(st, errv, T)
+	old := x.loadPtr(st, st.H, ptr, T)
+	x.storePtr(st, ptr, T, x.iteVal(r, nv, old))
+	st.assume(implies(r, not(eq(errv, "0"))))
+	return TV{r, types.Typ[types.Bool]}, true
+}
+
+func (x *Exec) useErrAs() {
+	x.reg.declare("errAsT", "(Int Int) Bool")
+	x.reg.declare("errAsV", "(Int Int) Int")
+	x.reg.axiom("errAsT", "nil", "(forall ((t Int)) (! (not (errAsT 0 t)) :pattern ((errAsT 0 t))))")
+}
+
+func (x *Exec) errAsT(errv string, T types.Type) string {
+	x.useErrAs()
+	return "(errAsT " + errv + " " + x.typeID(T) + ")"
+}
+
+// asValOf: the value errors.As would store for type T.
+func (x *Exec) asValOf(st *State, errv string, T types.Type) Val {
+	x.useErrAs()
+	return x.ufVal(st, T, "as%"+typeKey(T), "(errAsV "+errv+" "+x.typeID(T)+")")
+}
+
+// ufVal builds a value of type t whose scalar leaves are uninterpreted functions of arg.
+func (x *Exec) ufVal(st *State, t types.Type, base, arg string) Val {
+	switch u := under(t).(type) {
+	case *types.Struct:
+		sv := SV{Ty: t}
+		for i := 0; i < u.NumFields(); i++ {
+			sv.F = append(sv.F, x.ufVal(st, u.Field(i).Type(), base+"."+u.Field(i).Name(), arg))
+		}
+		return sv
+	case *types.Slice, *types.Array, *types.Tuple:
+		panic(unsupported("errors.As target with slice/array fields"))
+	default:
+		if isFloat(t) {
+			panic(unsupported("floating point"))
+		}
+		fn := "|" + base + "|"
+		if isBool(t) {
+			x.reg.declare(fn, "(Int) Bool")
+			return TV{"(" + fn + " " + arg + ")", t}
+		}
+		x.reg.declare(fn, "(Int) Int")
+		tv := TV{"(" + fn + " " + arg + ")", t}
+		if lo, hi, ok := intRange(t); ok {
+			x.reg.axiom(fn, "range", fmt.Sprintf("(forall ((a Int)) (! (and (<= %s (%s a)) (<= (%s a) %s)) :pattern ((%s a))))", lo, fn, fn, hi, fn))
+		}
+		if isString(t) {
+			x.useStr()
+		}
+		return tv
+	}
+}
+
+// iteVal: c ? a : b, leafwise.
+func (x *Exec) iteVal(c string, a, b Val) Val {
+	switch av := a.(type) {
+	case SV:
+		bv := b.(SV)
+		out := SV{Ty: av.Ty}
+		for i := range av.F {
+			out.F = append(out.F, x.iteVal(c, av.F[i], bv.F[i]))
+		}
+		return out
+	case TV:
+		return TV{ite(c, av.T, b.(TV).T), av.Ty}
+	}
+	panic(unsupported(fmt.Sprintf("conditional value of %T", a)))
 }
 
 // ---------- builtins ----------
@@ -878,6 +980,14 @@ func (x *Exec) refineMethod(st *State, tag string, ins *ssa.MakeInterface, fn *s
 	}
 	envT := &Env{x: x, st: st, names: nT, cur: st.H, old: st.H, tctx: tctxT, entryNames: nT, alloc: st.alloc}
 	for _, c := range specT.Requires {
+		if c.Label == "inv" || c.Label == "deps" || c.Label == "wf" {
+			// object invariant: established by the constructor and re-established by every method of the
+			// implementation (each has `ensures inv`); that nothing else writes the representation in
+			// between is the encapsulation assumption reported with the evidence
+			st.assume(x.evalBool(envT, c.E))
+			x.warn("object invariant of %s assumed at the interface boundary (encapsulation)", specT.Name)
+			continue
+		}
 		x.oblige(st, tag+":pre:"+c.Label, "refinement", c.Src, x.evalBool(envT, c.E))
 	}
 	old := st.H.copy()
